@@ -1,6 +1,7 @@
 from registry_common import COMMON_ASSUME
 
 ENTRY = dict(
+    prop_modules=["C07", "C07Products"],
     title="A write targets exactly the controller slot the parameter was read from",
     design_ref="DESIGN.md section 6 / C07",
     technique=("Lean 4 model of the parameter block decoders, the create_or_update handlers and the request builders; invariant proved by induction "
@@ -24,6 +25,7 @@ ENTRY = dict(
                 "decoders are C05's model, tied by C05's own correspondence too); product type is fixed per device history; asyncio task "
                 "ordering of dispatches is exercised, not modelled."),
     clauses={
+        "UID re-reports (same product type) at any time, before or after parameter responses": "theorem (`C07.same_product_is_run`, `index_preserved_rereports`: the history runs as the one-product machine, every C07 theorem applies); a re-report with ANOTHER product type is outside the quantifier and not supported by the code (`product_change_rereads_wrong_slot`, kernel-checked witness, replayed on the implementation: water_heater_target_temp keeps index 119 after P -> I)",
         "names unique per table (name <-> index bijection); schedule names split back to their schedule": "table (decide +kernel on the generated tables)",
         "index preserved over any history; request addressing per kind": "theorem",
         "value decoded from position p is held under table[p].name with index p": "theorem for all four block kinds (`read_slot_*`; schedule: entries naming distinct known schedules)",
